@@ -204,6 +204,7 @@ pub struct Report {
     pub violation_cap: u64,
     pub cur: u64,
     pub extra: BTreeMap<String, J>,
+    pub pairs: HashSet<u64>,
 }
 
 impl Report {
@@ -221,7 +222,11 @@ impl Report {
             violation_cap: 20,
             cur: 0,
             extra: BTreeMap::new(),
+            pairs: HashSet::new(),
         }
+    }
+    pub fn extra_pairs(&mut self, key: u64) {
+        self.pairs.insert(key);
     }
     #[inline]
     pub fn count(&mut self, k: &str, n: u64) {
@@ -453,6 +458,12 @@ pub fn run(args: &Args, mon: &mut dyn Monitor) {
         .set("distinct", J::U(rep.hashes.len() as u64))
         .set("hashes_dropped", J::U(rep.hashes_dropped))
         .set("samples", J::A(rep.samples.clone()))
+        .set("keyset", {
+            let mut v: Vec<u64> = rep.pairs.iter().copied().collect();
+            v.sort_unstable();
+            v.truncate(20000);
+            J::A(v.into_iter().map(J::U).collect())
+        })
         .set("extra", J::O(rep.extra.clone()));
     // hashes for cross-shard distinct counting
     if let Some(p) = args.params.get("hashfile") {
